@@ -24,3 +24,11 @@ CASES = [
  dict(id='n-conditions-comment', file=SY, expect='silent',
       old="    # build an empty local scope to exec the code and build the functions\n    results = {'equality':[], 'inequality':[]}", new="    # local scope for the generated functions\n    results = {'equality':[], 'inequality':[]}"),
 ]
+CASES += [
+ dict(id='m-penalty-parser-bare-bound', file='mystic/symbolic.py', expect='C14.h',
+      old="            if eps: # the bound is one operand of the sum\n                eqn['rhs'] = '(%s)' % eqn['rhs']\n            eqn['rhs'] += eps.replace('e_', '_tol(%s,tol,rel)' % eqn['rhs'])\n            expression = '%(lhs)s - (%(rhs)s)' % eqn",
+      new="            eqn['rhs'] += eps.replace('e_', '_tol(%s,tol,rel)' % eqn['rhs'])\n            expression = '%(lhs)s - (%(rhs)s)' % eqn"),
+ dict(id='n-penalty-parser-always-parenthesised', file='mystic/symbolic.py', expect='silent',
+      old="            if eps: # the bound is one operand of the sum\n                eqn['rhs'] = '(%s)' % eqn['rhs']\n            eqn['rhs'] += eps.replace('e_', '_tol(%s,tol,rel)' % eqn['rhs'])\n            expression = '%(lhs)s - (%(rhs)s)' % eqn",
+      new="            eqn['rhs'] = '(%s)' % eqn['rhs']\n            eqn['rhs'] += eps.replace('e_', '_tol(%s,tol,rel)' % eqn['rhs'])\n            expression = '%(lhs)s - (%(rhs)s)' % eqn"),
+]
